@@ -293,6 +293,10 @@ def load(arch):
             continue
         template = ast.literal_eval(parts[0].strip())
         constraints = eval(parts[1].strip(), ctx)
+        for c in constraints.values():
+            # identifier lists come out of a hash map in varying order: sort them so that every run instantiates the same operands
+            if isinstance(c, List_) and all(isinstance(o, str) for o in c.options):
+                c.options.sort()
         extra = [ast.literal_eval(p) for p in parts[2:]] if len(parts) > 2 else []
         forms.append(Form(arch, template, constraints, extra, n))
     return forms
